@@ -98,6 +98,12 @@ CHECKS['C06'] = ('alignment',
   'Trusts: TLC; harness/project.py; runs cut by the step cap (300 x budget + 30000 steps) are skipped and counted; larger molecule has a bond and a non-hydrogen atom, mobile molecule connected.', 'DESIGN 3 C06')
 ENGINES['alignment'] = ('harness/drivers/alignment.py', 'Alignment.tla + MC_Alignment.tla + Trace_Alignment.tla; reuses the montecarlo observer')
 
+CHECKS['C10'] = ('restraints',
+  'Restraints.tla: Route (role swap + hydrogen filter; Abs = pairs in atom identities, Alg = re-based row indices), the splitter / protein-guesser predicates (Covers, InRange, Monotone, same sequence position) and the Manager option routing (Rejects / Delivered composed with Route); MC_Restraints.tla enumerates every case of four sub-models, TLC proves RouteRefines / SplitRefines / ProteinRefines and emits the expected outcome of every case, replayed on the real Alignment / Manager with a recording stub optimiser (atoms identified by coordinates); the guessers\' observed lists and random larger routings are validated by TLC against Trace_Restraints.tla',
+  'Route: every (nS, nE <= 3 (4), hydrogen mask of the fixed molecule, restraint list of length <= 2 incl. duplicates, ignore_hydrogens) - 3 058 (9e4) cases - through the real align_molecules: optimiser called unless the end has one atom, fixed molecule = larger (ties: start), fixed rows = all atoms / all non-hydrogens, delivered pairs = the user\'s atoms in order minus filtered hydrogens, mobile rows = whole mobile molecule, default deformation types. Splitter: all 40 x 40 residue lengths x 2 offset pairs on the real guess_residue_restrains; protein guesser: all pairs of sequences of <= 3 (4) residues of 1..3 atoms and random sequences up to 12 residues incl. unequal counts (IOError demanded), also routed through align_molecules(None). Manager: 2 complete species (one with swapped roles) + an incomplete one + unloaded solvent, every shape of the three option dictionaries (absent / None / valid / malformed per species, unknown or incomplete species name, dictionary omitted) and pre-parsed restraints passed reordered or for a subset: rejected before any alignment, or each named species aligned once with its own restraints, hydrogen flag and deformation types (4 000 sampled in quick, all 2.6e5 in thorough).',
+  'Trusts: TLC; decoding of optimiser arguments by exact coordinate match (all atoms at distinct lattice points; start and end have different shapes); restraint indices non-negative and in range; hydrogens are atoms named H<digits>.', 'DESIGN 3 C10')
+ENGINES['restraints'] = ('harness/drivers/restraints.py', 'Restraints.tla + MC_Restraints.tla (four modes) + Trace_Restraints.tla')
+
 PENDING_REASON = 'check not built yet in this round (build in progress; see DESIGN.md Appendix B)'
 
 
